@@ -549,6 +549,37 @@ func genForeign(r *hx.Rng) *gScen {
 	return g.sc
 }
 
+// a callback that re-enters the container: G's Init fetches the lazy P by name from the factory; P is wired back to G.
+// With a substituting post-processor on G the early reference is requested DURING G's initialization, not during its
+// population. Oracle-only (the machine model has no re-entrant callbacks): identity / version oracles c01-*, c03-stale.
+func genReentrant(r *hx.Rng) *gScen {
+	g := newBuilder(r)
+	gt := g.randType(func(u utInfo) bool { return !u.pp && !u.lazy && len(u.ifs) > 0 })
+	x := g.addNode(gt, false)
+	lazyTypes := []int{5, 7, 12}
+	p := g.addNode(lazyTypes[r.Intn(len(lazyTypes))], false)
+	g.sc.nodes[x].fetch = g.nameOf(p)
+	g.sc.nodes[p].slots["A0"] = "w" + g.nameOf(x)
+	switch r.Intn(7) {
+	case 0, 1, 2, 3:
+		g.sc.nodes[x].early = 1
+	case 4:
+		g.sc.nodes[x].early, g.sc.nodes[x].after = 1, 2
+	case 5:
+		g.sc.nodes[x].early, g.sc.nodes[x].after = 1, 1
+	default:
+		g.sc.nodes[x].after = 2
+	}
+	if r.P(1, 2) { // somebody else who wants G as well
+		h := g.addNode(g.randType(func(u utInfo) bool { return !u.pp }), r.P(1, 2))
+		g.edgeByName(h, x, false)
+		if r.P(1, 2) {
+			g.edgeByName(h, p, false)
+		}
+	}
+	return g.sc
+}
+
 func genDiamond(r *hx.Rng) *gScen {
 	g := newBuilder(r)
 	top := g.addNode(g.randType(func(u utInfo) bool { return !u.lazy }), false)
@@ -702,8 +733,12 @@ func graphGen(rng *hx.Rng, n int, tier string, w *hx.Writer) {
 			count++
 		case k < 15:
 			sc := genDiamond(r)
+			tag := "diamond"
+			if r.P(1, 3) {
+				sc, tag = genReentrant(r), "reentrant"
+			}
 			if active() {
-				emitGraph(sc, []string{"diamond"}, w)
+				emitGraph(sc, []string{tag}, w)
 			}
 			count++
 		case k == 15:
